@@ -78,4 +78,139 @@ theorem C02_confined (c : Cfg) (hb : Benign c) (roots : List (Node × Faults)) (
   refine ⟨h1, h2, ?_, h4, fun f root e => (C09_status_meaning c f root e).1⟩
   rw [h3, pkgsOfCalls_filter]
 
+/-- the configuration in which `Extract` of extractor `e0` on file `p0` has outcome `out`; everything else as in `c` -/
+def withOutcome (c : Cfg) (e0 : Nat) (p0 : Path) (out : ExtractOut) : Cfg :=
+  { c with extract := fun e p => if e = e0 ∧ p = p0 then out else c.extract e p }
+
+theorem withOutcome_other (c : Cfg) (e0 : Nat) (p0 : Path) (out : ExtractOut) (e : Nat) (p : Path)
+    (h : ¬ (e = e0 ∧ p = p0)) : (withOutcome c e0 p0 out).extract e p = c.extract e p := by
+  simp [withOutcome, h]
+
+theorem withOutcome_benign {c : Cfg} (hb : Benign c) (e0 : Nat) (p0 : Path) (out : ExtractOut) (ho : out.panics = false) :
+    Benign (withOutcome c e0 p0 out) := by
+  obtain ⟨h1, h2, h3, h4, h5⟩ := hb
+  refine ⟨h1, h2, h3, h4, ?_⟩
+  intro e p
+  by_cases h : e = e0 ∧ p = p0
+  · simp [withOutcome, h, ho]
+  · rw [withOutcome_other c e0 p0 out e p h]; exact h5 e p
+
+/-- the specification never looks at an `Extract` result -/
+theorem mustExtract_withOutcome (c : Cfg) (e0 : Nat) (p0 : Path) (out : ExtractOut) (roots : List (Node × Faults)) :
+    mustExtract (withOutcome c e0 p0 out) roots = mustExtract c roots := rfl
+theorem mustRoot_withOutcome (c : Cfg) (e0 : Nat) (p0 : Path) (out : ExtractOut) (f : Faults) (r : Node) :
+    mustRoot (withOutcome c e0 p0 out) f r = mustRoot c f r := rfl
+
+theorem pkgsOfCalls_congr (c c' : Cfg) (cs : List Call)
+    (h : ∀ cl ∈ cs, c'.extract cl.ext cl.path = c.extract cl.ext cl.path) : pkgsOfCalls c' cs = pkgsOfCalls c cs := by
+  induction cs with
+  | nil => rfl
+  | cons cl cs ih =>
+    have h1 := h cl (by simp)
+    have h2 := ih (fun x hx => h x (by simp [hx]))
+    simp only [pkgsOfCalls, List.flatMap_cons] at h2 ⊢
+    rw [h1, h2]
+
+theorem errs_contains_congr (c c' : Cfg) (e : Nat) (cs : List Call)
+    (h : ∀ cl ∈ cs, cl.ext = e → c'.extract cl.ext cl.path = c.extract cl.ext cl.path) :
+    (errsOfCalls c' cs).contains e = (errsOfCalls c cs).contains e := by
+  induction cs with
+  | nil => rfl
+  | cons cl cs ih =>
+    have h2 := ih (fun x hx => h x (by simp [hx]))
+    have e1 : errsOfCalls c' (cl :: cs) = errsOfCalls c' [cl] ++ errsOfCalls c' cs := errsOfCalls_append c' [cl] cs
+    have e2 : errsOfCalls c (cl :: cs) = errsOfCalls c [cl] ++ errsOfCalls c cs := errsOfCalls_append c [cl] cs
+    rw [e1, e2, List.contains_append, List.contains_append, h2]
+    congr 1
+    by_cases he : cl.ext = e
+    · have := h cl (by simp) he
+      simp only [errsOfCalls, List.flatMap_cons, List.flatMap_nil, List.append_nil, this]
+    · simp only [errsOfCalls, List.flatMap_cons, List.flatMap_nil, List.append_nil]
+      have he' : ¬ e = cl.ext := fun x => he x.symm
+      split <;> split <;> simp [he']
+
+theorem found_contains_congr (c c' : Cfg) (e : Nat) (cs : List Call)
+    (h : ∀ cl ∈ cs, cl.ext = e → c'.extract cl.ext cl.path = c.extract cl.ext cl.path) :
+    (foundOfCalls c' cs).contains e = (foundOfCalls c cs).contains e := by
+  induction cs with
+  | nil => rfl
+  | cons cl cs ih =>
+    have h2 := ih (fun x hx => h x (by simp [hx]))
+    have e1 : foundOfCalls c' (cl :: cs) = foundOfCalls c' [cl] ++ foundOfCalls c' cs := foundOfCalls_append c' [cl] cs
+    have e2 : foundOfCalls c (cl :: cs) = foundOfCalls c [cl] ++ foundOfCalls c cs := foundOfCalls_append c [cl] cs
+    rw [e1, e2, List.contains_append, List.contains_append, h2]
+    congr 1
+    by_cases he : cl.ext = e
+    · have := h cl (by simp) he
+      simp only [foundOfCalls, List.flatMap_cons, List.flatMap_nil, List.append_nil, this]
+    · simp only [foundOfCalls, List.flatMap_cons, List.flatMap_nil, List.append_nil]
+      have he' : ¬ e = cl.ext := fun x => he x.symm
+      split <;> split <;> simp [he']
+
+theorem filter_status_map (g : Nat → Status) (e0 : Nat) (l : List Nat) :
+    ((l.map fun e => (e, g e)).filter fun x => x.1 != e0) = (l.filter fun e => e != e0).map fun e => (e, g e) := by
+  induction l with
+  | nil => rfl
+  | cons a l ih =>
+    simp only [List.map_cons, List.filter_cons, ih]
+    split <;> simp
+
+/-- **Confinement, two-scan form (C02, second sentence, at full strength on the engine model).**
+Take any scan without limits / cancellation / fatal-errors option, and change NOTHING but the outcome of `Extract`
+for one extractor `e0` on one file `p0` — to an error, a partial inventory, an empty result, anything but a panic.
+Then the second scan also completes; it makes exactly the same extraction attempts; every package that does not come
+from (`e0`, `p0`) is reported identically, in the same order; and the status of every OTHER extractor, in every root,
+is the same. -/
+theorem C02_confined_two (c : Cfg) (hb : Benign c) (roots : List (Node × Faults)) (hg : GiOK c)
+    (e0 : Nat) (p0 : Path) (out : ExtractOut) (ho : out.panics = false) :
+    let c' := withOutcome c e0 p0 out
+    (run c' roots).err = .none ∧ (run c roots).err = .none ∧
+    (run c' roots).calls = (run c roots).calls ∧
+    (run c' roots).pkgs.filter (fun k => !(k.ext = e0 && k.loc = p0))
+      = (run c roots).pkgs.filter (fun k => !(k.ext = e0 && k.loc = p0)) ∧
+    (run c' roots).statuses.filter (fun x => x.1 != e0) = (run c roots).statuses.filter (fun x => x.1 != e0) := by
+  intro c'
+  have hb' : Benign c' := withOutcome_benign hb e0 p0 out ho
+  have hg' : GiOK c' := hg
+  obtain ⟨a1, a2⟩ := run_spec c hb roots hg
+  obtain ⟨b1, b2⟩ := run_spec c' hb' roots hg'
+  obtain ⟨a3, a4⟩ := run_results c hb roots hg
+  obtain ⟨b3, b4⟩ := run_results c' hb' roots hg'
+  refine ⟨b1, a1, ?_, ?_, ?_⟩
+  · rw [a2, b2]; rfl
+  · rw [a3, b3, pkgsOfCalls_filter, pkgsOfCalls_filter, mustExtract_withOutcome]
+    apply pkgsOfCalls_congr
+    intro cl hcl
+    apply withOutcome_other
+    have := (List.mem_filter.mp hcl).2
+    intro hh
+    simp [hh.1, hh.2] at this
+  · rw [a4, b4]
+    have hn : c'.nExt = c.nExt := rfl
+    rw [hn]
+    simp only [List.filter_flatMap]
+    congr 1
+    funext rf
+    obtain ⟨r, f⟩ := rf
+    rw [filter_status_map, filter_status_map]
+    apply List.map_congr_left
+    intro e he
+    have hne : e ≠ e0 := by
+      have := (List.mem_filter.mp he).2
+      simpa using this
+    have hcong : ∀ cl ∈ mustRoot c f r, cl.ext = e → c'.extract cl.ext cl.path = c.extract cl.ext cl.path := by
+      intro cl _ hce
+      apply withOutcome_other
+      intro hh; exact hne (hce ▸ hh.1)
+    have hm : mustRoot c' f r = mustRoot c f r := rfl
+    have h1 := errs_contains_congr c c' e (mustRoot c f r) hcong
+    have h2 := found_contains_congr c c' e (mustRoot c f r) hcong
+    simp only [statusSpec, hm, h1, h2]
+
+
+/-- non-vacuity: the example configuration of C01 is benign with a lawful matcher, and replacing the outcome of
+extractor 0 on `a/x` by an error is a legal instance -/
+example : Benign (withOutcome { nExt := 2, required := fun _ _ => true, extract := fun _ _ => {}, giMatch := matcherMatch } 0 ["a", "x"] { err := true }) :=
+  withOutcome_benign ⟨rfl, rfl, rfl, rfl, fun _ _ => rfl⟩ _ _ _ rfl
+
 end Scalibr.Walk
